@@ -225,6 +225,43 @@ def text_stage(chk):
             chk.corr_failure("m3u_text", {"items": items, "text": text, "impl_loaded": loaded, "py_safe": s})
     chk.obligation("corr:m3u_text", "correspondence", ok)
     chk.obligation("corr:m3u_local_ref", "correspondence", ok_local)
+    codec_stage(chk, [t for _, t, _, _ in rows])
+
+
+def codec_stage(chk, texts):
+    """encode_repl / decode_repl (latin-1, ascii with errors='replace') vs Python's codecs on the
+    dumped texts and on arbitrary byte strings."""
+    rng = chk.rng
+    sample = [t for t in texts if t][:: max(1, len(texts) // (300 if chk.tier == "quick" else 3000))]
+    items = []
+    meta = []
+    for t in sample:
+        for enc, cname in (("latin-1", "Latin1"), ("ascii", "Ascii")):
+            b = t.encode(enc, "replace")
+            raw = bytes(rng.randrange(256) for _ in range(rng.randint(0, 24)))
+            items.append(f"({cname}, {g_str(t)}, {g_list([g_z(x) for x in b])}, "
+                         f"{g_list([g_z(x) for x in raw])}, {g_str(raw.decode(enc, 'replace'))})")
+            meta.append({"encoding": enc, "text": t[:80], "raw": raw.hex()})
+            chk.count(1, nontrivial_key=("codec", enc, t) if any(ord(c) > 127 for c in t) else None)
+            chk.dist("codec:" + enc)
+    shards = [items[i:i + 200] for i in range(0, len(items), 200)]
+    texts_v = [COQ_IMPORTS
+               + "Definition cases : list (codec * str * list Z * list Z * str) :=\n " + g_list(sh) + ".\n"
+               + "Definition ok (c : codec * str * list Z * list Z * str) : bool :=\n"
+                 "  let '(cd, t, enc, raw, dec) := c in\n"
+                 "  str_eqb (encode_repl cd t) enc && str_eqb (decode_repl cd raw) dec.\n"
+               + "Eval vm_compute in mismatches ok cases.\n" for sh in shards]
+    ok = True
+    for si, (rc, out) in enumerate(vlib.coq_eval_many(AREA, texts_v, jobs=14)):
+        bad = vlib.parse_nat_list(out)
+        if rc != 0 or bad is None:
+            ok = False
+            chk.corr_failure("m3u_codec", {"coq": "evaluation failed"}, out[-1200:])
+            continue
+        for i in bad:
+            ok = False
+            chk.corr_failure("m3u_codec", meta[si * 200 + i], "encode_repl/decode_repl differ from Python's codec")
+    chk.obligation("corr:m3u_codec", "correspondence", ok)
 
 
 # ---------------------------------------------------------------------------- 2. provider layer
@@ -415,6 +452,13 @@ def provider_stage(chk):
             chk.dist("op:" + kind)
             texts += [v for v in st["after"].values() if v is not None]
             fenc = enc_for(st.get("f", ""), enc)
+            if kind == "save" and obs[0] == "pl" and obs[1] is not None and \
+                    enc_for(pl_tuple(obs[1])[0], enc) != fenc:
+                # a rename that changes the file's encoding class (only possible when a blank name
+                # yields the suffix-less '.m3u8': the known finding): the bytes written as utf-8
+                # are later read with the default encoding; the text-level model stops here
+                chk.dist("provider:sequence-cut-at-encoding-changing-rename")
+                break
             if kind == "create":
                 op = f"PCreate {g_str(st['name'])}"
             elif kind == "save":
